@@ -2,7 +2,7 @@
 //! (30 layout objects x 124 keys x 512 modifier values x 2 modes = 3.8 M points each).
 
 use crate::common::*;
-use crate::props::events::{is_modifier_key, mods_paths};
+use crate::props::events::{decoder_family, is_modifier_key, mods_paths};
 use crate::refs::layouts::*;
 use crate::replay::{Op, Replay};
 use crate::report::Ctx;
@@ -313,6 +313,17 @@ pub fn c03(ctx: &mut Ctx) -> (u64, String) {
     ctx.expect(tables_well_formed(), "reference tables have 48 columns");
     let (_, nt) = for_all_objects(ctx, "sweep:level-selecting modifier states", 3, c03_chunk);
     c03_e2e::<ScancodeSet2>(ctx, "set2", ScancodeSet2::new, 2);
+    {
+        let all: Vec<usize> = (0..N_LAYOUTS).collect();
+        let deep = if ctx.thorough() { 2 } else { 1 };
+        decoder_family(ctx, "family:characters through EventDecoder after short histories", &all, &|l| main_keys(l), deep, |l, k, m, mode, out| {
+            let base_out = guarded(|| map_direct(l, k, &mods_from_bits(base_of(m)), mode));
+            match c03_judge(l, k, m, mode, out, &base_out) {
+                Err((want, lev)) => Some((lev.to_string(), want)),
+                _ => None,
+            }
+        });
+    }
     if ctx.thorough() {
         c03_e2e::<ScancodeSet1>(ctx, "set1", ScancodeSet1::new, 1);
     }
@@ -469,6 +480,34 @@ pub fn c09(ctx: &mut Ctx) -> (u64, String) {
     ctx.assume("self-referential oracle: 'the letter the layout types' = the layout's own unmodified output for that key; no reference table");
     ctx.assume("Ctrl together with an Alt key in mapping mode is unconstrained (the statement says 'no Alt or AltGr')");
     let (_, nt) = for_all_objects(ctx, "sweep:30 objects x 124 keys x 512 modifier values x 2 modes", 3, c09_chunk);
+    {
+        let all: Vec<usize> = (0..N_LAYOUTS).collect();
+        let deep = if ctx.thorough() { 2 } else { 1 };
+        decoder_family(ctx, "family:Ctrl handling through EventDecoder after short histories", &all, &|_l| ALL_KEYS.to_vec(), deep, |l, k, m, mode, out| {
+            let base = guarded(|| map_direct(l, k, &mods_from_bits(M_NUM), HandleControl::Ignore));
+            let letter = match &base {
+                Ok(DecodedKey::Unicode(c)) if c.is_ascii_lowercase() => Some(*c),
+                _ => None,
+            };
+            let f = |r: &Result<DecodedKey, String>| match r {
+                Ok(d) => dk_text(d),
+                Err(p) => p.clone(),
+            };
+            if let (Some(c), true, false, HandleControl::MapLettersToUnicode) = (letter, r_ctrl(m), r_alt(m), mode) {
+                let want = DecodedKey::Unicode(char::from_u32(c as u32 - 0x60).unwrap());
+                return if *out != Ok(want) { Some(("ctrl-letter".into(), dk_text(&want))) } else { None };
+            }
+            if mode == HandleControl::Ignore && r_ctrl(m) && m & M_LALT == 0 {
+                let want = guarded(|| map_direct(l, k, &mods_from_bits(m & !(M_LCTRL | M_RCTRL)), HandleControl::Ignore));
+                return if *out != want { Some(("ctrl-in-ignore-mode".into(), f(&want))) } else { None };
+            }
+            if mode == HandleControl::MapLettersToUnicode && (!r_ctrl(m) || letter.is_none()) {
+                let want = guarded(|| map_direct(l, k, &mods_from_bits(m), HandleControl::Ignore));
+                return if *out != want { Some(("mode-changes-output".into(), f(&want))) } else { None };
+            }
+            None
+        });
+    }
     if ctx.thorough() {
         c09_via_decoder(ctx);
     }
@@ -606,6 +645,26 @@ pub fn c10(ctx: &mut Ctx) -> (u64, String) {
     ctx.assume("self-referential oracle: a letter key is one whose unmodified output is a lowercase letter and whose Shift output is its single-character uppercase form (admits national letters, excludes ß/?, ù/%, é/2)");
     let (_, nt) = for_all_objects(ctx, "sweep:30 objects x 124 keys x 256 CapsLock twins x 2 modes", 3, c10_chunk);
     c10_via_decoder(ctx);
+    {
+        let all: Vec<usize> = (0..N_LAYOUTS).collect();
+        let deep = if ctx.thorough() { 2 } else { 1 };
+        decoder_family(ctx, "family:CapsLock through EventDecoder after short histories", &all, &|_l| ALL_KEYS.to_vec(), deep, |l, k, m, mode, out| {
+            if m & M_CAPS == 0 {
+                return None;
+            }
+            let b = guarded(|| map_direct(l, k, &mods_from_bits(M_NUM), HandleControl::Ignore));
+            let s = guarded(|| map_direct(l, k, &mods_from_bits(M_NUM | M_LSHIFT), HandleControl::Ignore));
+            let letter = matches!((&b, &s), (Ok(DecodedKey::Unicode(c)), Ok(DecodedKey::Unicode(u))) if c.is_lowercase() && upper_single(*c) == Some(*u));
+            let m0 = m & !M_CAPS;
+            let twin = if !letter { m0 } else if r_shift(m0) { m0 & !(M_LSHIFT | M_RSHIFT) } else { m0 | M_LSHIFT };
+            let want = guarded(|| map_direct(l, k, &mods_from_bits(twin), mode));
+            if *out != want {
+                Some((if letter { "caps-inverts-shift".into() } else { "caps-affects-nonletter".into() }, match &want { Ok(d) => dk_text(d), Err(p) => p.clone() }))
+            } else {
+                None
+            }
+        });
+    }
     ctx.sample(json!({"layout": "de105", "key": "Oem1 (ö/Ö)", "modifiers": "capslock", "reference": "Ö; with capslock+rshift: ö"}));
     ctx.sample(json!({"layout": "azerty", "key": "M (',' / '?')", "modifiers": "capslock", "reference": "',' (unchanged)"}));
     (nt, "30 layout objects x 124 keys x all 256 CapsLock-off modifier values paired with their CapsLock-on twin x both modes; non-trivial = twin pairs on letter keys".into())
@@ -658,20 +717,48 @@ fn c11_chunk(form: usize, l: usize) -> ChunkOut {
 pub fn c11(ctx: &mut Ctx) -> (u64, String) {
     ctx.trust("R-PRED: the five groupings as boolean formulas (harness/src/common.rs r_shift/r_ctrl/r_alt/r_altgr/r_caps), written from the property text");
     let (_, nt) = for_all_objects(ctx, "sweep:class-mates agree", 3, c11_chunk);
+    {
+        let all: Vec<usize> = (0..N_LAYOUTS).collect();
+        let deep = if ctx.thorough() { 2 } else { 1 };
+        decoder_family(ctx, "family:modifier classes through EventDecoder after short histories", &all, &|_l| ALL_KEYS.to_vec(), deep, |l, k, m, mode, out| {
+            // the class representative: one key per fact
+            let numpad = is_numpad_numlock_key(k);
+            let rep = (if r_shift(m) { M_LSHIFT } else { 0 })
+                | (if r_ctrl(m) { M_LCTRL } else { 0 })
+                | (if r_altgr(m) { M_RALT } else { 0 })
+                | (m & M_CAPS)
+                | (if numpad { m & M_NUM } else { M_NUM });
+            let want = guarded(|| map_direct(l, k, &mods_from_bits(rep), mode));
+            if *out != want {
+                Some(("depends-on-more-than-the-five-facts".into(), format!("{} (what [{}] gives)", match &want { Ok(d) => dk_text(d), Err(p) => p.clone() }, mods_text(rep))))
+            } else {
+                None
+            }
+        });
+    }
     // the five public predicates on all 512 values
     let mut bad = 0;
     for m in 0..512u16 {
         let mods = mods_from_bits(m);
-        let got = [mods.is_shifted(), mods.is_ctrl(), mods.is_alt(), mods.is_altgr(), mods.is_caps()];
+        let got = [
+            guarded(|| mods.is_shifted()),
+            guarded(|| mods.is_ctrl()),
+            guarded(|| mods.is_alt()),
+            guarded(|| mods.is_altgr()),
+            guarded(|| mods.is_caps()),
+        ];
         let want = [r_shift(m), r_ctrl(m), r_alt(m), r_altgr(m), r_caps(m)];
         ctx.evaluations += 5;
         for (i, name) in ["is_shifted", "is_ctrl", "is_alt", "is_altgr", "is_caps"].iter().enumerate() {
-            if got[i] != want[i] {
+            if got[i] != Ok(want[i]) {
                 bad += 1;
-                // observable through a recording layout: no; record as a predicate-level violation with a layout replay for context
+                let gt = match &got[i] {
+                    Ok(b) => b.to_string(),
+                    Err(p) => p.clone(),
+                };
                 ctx.violation(
                     &format!("predicate/{}/mods:{}", name, m),
-                    &format!("Modifiers::{}() on [{}] must be {} but is {}", name, mods_text(m), want[i], got[i]),
+                    &format!("Modifiers::{}() on [{}] must be {} but is {}", name, mods_text(m), want[i], gt),
                     Replay { parts: vec![], expected: format!("{}", want[i]), observed_last: None },
                 );
             }
@@ -724,6 +811,97 @@ pub fn c12(ctx: &mut Ctx) -> (u64, String) {
         }
     }
     ctx.part("search:95 printable ASCII characters x 30 layout objects", json!({"witnesses_found": witnesses, "required": 95 * 30}));
+
+    // through a real EventDecoder: the character must still be typeable as the very next key after any single key
+    // has been tapped at any of the three plain levels (a decoder that remembers the last key must not take a
+    // character away)
+    {
+        let level_keys: [Option<KeyCode>; 3] = [None, Some(KeyCode::LShift), Some(KeyCode::RAltGr)];
+        let plain: Vec<KeyCode> = ALL_KEYS.iter().copied().filter(|k| !is_modifier_key(*k)).collect();
+        let results = par_chunks(N_LAYOUTS, |l| {
+            let mut n = 0u64;
+            let mut bads: Vec<(usize, KeyCode, usize, char)> = vec![];
+            // witnesses from the table: char -> list of (key, level)
+            let mut wit: BTreeMap<char, Vec<(KeyCode, usize)>> = BTreeMap::new();
+            for k in &plain {
+                for (li, (_, m)) in levels.iter().enumerate() {
+                    if let Ok(DecodedKey::Unicode(c)) = call(0, l, *k, &mods_from_bits(*m), HandleControl::MapLettersToUnicode) {
+                        if (' '..='~').contains(&c) {
+                            wit.entry(c).or_default().push((*k, li));
+                        }
+                    }
+                }
+            }
+            let tap = |d: &mut EventDecoder<Wrap>, k: KeyCode, lev: usize| -> Result<Option<DecodedKey>, String> {
+                guarded(|| {
+                    if let Some(mk) = level_keys[lev] {
+                        let _ = d.process_keyevent(KeyEvent::new(mk, KeyState::Down));
+                    }
+                    let r = d.process_keyevent(KeyEvent::new(k, KeyState::Down));
+                    let _ = d.process_keyevent(KeyEvent::new(k, KeyState::Up));
+                    if let Some(mk) = level_keys[lev] {
+                        let _ = d.process_keyevent(KeyEvent::new(mk, KeyState::Up));
+                    }
+                    r
+                })
+            };
+            for hk in &plain {
+                for hl in 0..3 {
+                    let mut d0 = EventDecoder::new(Wrap(l as u8), HandleControl::MapLettersToUnicode);
+                    if tap(&mut d0, *hk, hl).is_err() {
+                        continue;
+                    }
+                    for (c, ws) in &wit {
+                        let mut found = false;
+                        for (wk, wl) in ws {
+                            let mut d = d0.clone();
+                            n += 1;
+                            if tap(&mut d, *wk, *wl) == Ok(Some(DecodedKey::Unicode(*c))) {
+                                found = true;
+                                break;
+                            }
+                        }
+                        if !found && bads.len() < 6 {
+                            bads.push((l, *hk, hl, *c));
+                        }
+                    }
+                }
+            }
+            (n, bads)
+        });
+        let mut n = 0;
+        for (c, bads) in results {
+            n += c;
+            for (l, hk, hl, ch) in bads {
+                let comp = format!("ed:wrap-{}:Map", LAYOUT_NAMES[l]);
+                let mut ops = vec![];
+                if let Some(mk) = level_keys[hl] {
+                    ops.push(Op::Key(mk, KeyState::Down));
+                }
+                ops.push(Op::Key(hk, KeyState::Down));
+                ops.push(Op::Key(hk, KeyState::Up));
+                if let Some(mk) = level_keys[hl] {
+                    ops.push(Op::Key(mk, KeyState::Up));
+                }
+                // then the table's first witness, to show what comes out instead
+                let w = ALL_KEYS.iter().flat_map(|k| (0..3).map(move |li| (*k, li))).find(|(k, li)| call(0, l, *k, &mods_from_bits(levels[*li].1), HandleControl::MapLettersToUnicode) == Ok(DecodedKey::Unicode(ch)));
+                if let Some((wk, wl)) = w {
+                    if let Some(mk) = level_keys[wl] {
+                        ops.push(Op::Key(mk, KeyState::Down));
+                    }
+                    ops.push(Op::Key(wk, KeyState::Down));
+                }
+                let obs = crate::replay::run_part(&comp, &ops).pop();
+                ctx.violation(
+                    &format!("{}/untypeable-after/{}-{}/U+{:04X}", LAYOUT_NAMES[l], key_name(hk), hl, ch as u32),
+                    &format!("[via EventDecoder] layout {}: right after tapping {:?} ({}), no key types {:?} at its unmodified, Shift or AltGr level any more", LAYOUT_NAMES[l], hk, levels[hl].0, ch),
+                    Replay::one(&comp, ops, &format!("Some(Unicode({:?}))", ch), obs),
+                );
+            }
+        }
+        ctx.evaluations += n;
+        ctx.part("search:every character right after tapping any key at any plain level (EventDecoder)", json!({"layouts": 10, "histories_per_layout": plain.len() * 3, "presses_tried": n}));
+    }
     if ctx.thorough() {
         // each witness re-typed through EventDecoder by real key events
         let mut n = 0u64;
@@ -813,10 +991,63 @@ fn c15_chunk(form: usize, l: usize) -> ChunkOut {
     o
 }
 
+/// R-NUMPAD / R-EDIT as a point judge (same rules as c15_chunk), usable on decoder outputs
+pub fn judge_c15(l: usize, k: KeyCode, m: u16, _mode: HandleControl, out: &Result<DecodedKey, String>, ret: &Result<DecodedKey, String>) -> Option<(String, String)> {
+    let num = r_numlock(m);
+    if let Some((_, digit, alias)) = NUMPAD_DIGITS.iter().find(|(d, _, _)| *d == k) {
+        return if num {
+            if *out != Ok(DecodedKey::Unicode(*digit)) { Some(("numlock-on".into(), format!("Unicode({:?})", digit))) } else { None }
+        } else if let Some(a) = alias {
+            if *out != Ok(DecodedKey::RawKey(*a)) { Some(("numlock-off".into(), format!("RawKey({:?})", a))) } else { None }
+        } else if *out != Ok(DecodedKey::Unicode(*digit)) && *out != Ok(DecodedKey::RawKey(k)) {
+            Some(("numlock-off".into(), format!("Unicode({:?}) or RawKey({:?})", digit, k)))
+        } else {
+            None
+        };
+    }
+    if let Some((_, c)) = NUMPAD_OPS.iter().find(|(o, _)| *o == k) {
+        return if *out != Ok(DecodedKey::Unicode(*c)) { Some(("operator".into(), format!("Unicode({:?})", c))) } else { None };
+    }
+    if k == KeyCode::NumpadEnter {
+        return if out != ret || *out != Ok(DecodedKey::Unicode('\n')) { Some(("enter".into(), "what Return types = Unicode('\\n')".into())) } else { None };
+    }
+    if k == KeyCode::NumpadPeriod {
+        let seps = decimal_separators(l);
+        return if num {
+            if !matches!(out, Ok(DecodedKey::Unicode(c)) if seps.contains(*c)) { Some(("decimal-numlock-on".into(), format!("the decimal separator Unicode({})", chars_text(&seps.chars().collect::<Vec<_>>())))) } else { None }
+        } else if *out != Ok(DecodedKey::Unicode('\u{7F}')) {
+            Some(("decimal-numlock-off".into(), "the Delete character Unicode(U+007F)".into()))
+        } else {
+            None
+        };
+    }
+    if let Some((_, c)) = EDIT_KEYS.iter().find(|(e, _)| *e == k) {
+        return if *out != Ok(DecodedKey::Unicode(*c)) { Some(("editing".into(), format!("Unicode(U+{:04X})", *c as u32))) } else { None };
+    }
+    None
+}
+
+pub fn c15_keys() -> Vec<KeyCode> {
+    let mut v: Vec<KeyCode> = NUMPAD_DIGITS.iter().map(|x| x.0).collect();
+    v.extend(NUMPAD_OPS.iter().map(|x| x.0));
+    v.push(KeyCode::NumpadEnter);
+    v.push(KeyCode::NumpadPeriod);
+    v.extend(EDIT_KEYS.iter().map(|x| x.0));
+    v
+}
+
 pub fn c15(ctx: &mut Ctx) -> (u64, String) {
     ctx.trust("R-NUMPAD / R-EDIT (harness/src/refs/layouts.rs): digit <-> navigation pairs, operators, decimal separator per layout ('.'; ',' for NO and FI/SE; either for DE and FR), the six editing characters");
     ctx.assume("Numpad5 with NumLock off is outside the statement's list: '5' or its own raw key are both accepted");
     let (_, nt) = for_all_objects(ctx, "sweep:30 objects x 23 keys x 512 modifier values x 2 modes", 3, c15_chunk);
+    {
+        let all: Vec<usize> = (0..N_LAYOUTS).collect();
+        let deep = if ctx.thorough() { 2 } else { 1 };
+        decoder_family(ctx, "family:numpad and editing keys through EventDecoder after short histories", &all, &|_l| c15_keys(), deep, |l, k, m, mode, out| {
+            let ret = guarded(|| map_direct(l, KeyCode::Return, &mods_from_bits(m), mode));
+            judge_c15(l, k, m, mode, out, &ret)
+        });
+    }
     ctx.sample(json!({"key": "Numpad7", "numlock": "off", "modifiers": "lshift+lctrl+capslock", "reference": "RawKey(Home)"}));
     ctx.sample(json!({"key": "NumpadPeriod", "layout": "no105", "numlock": "on", "reference": "','"}));
     (nt, "30 layout objects x (17 numpad + 6 editing keys) x all 512 modifier values x both modes against R-NUMPAD/R-EDIT; every point is judged".into())
@@ -864,6 +1095,22 @@ fn c16_chunk(form: usize, l: usize) -> ChunkOut {
 pub fn c16(ctx: &mut Ctx) -> (u64, String) {
     ctx.trust("R-RAW52 (harness/src/refs/layouts.rs): the 52 keys that carry no character on any keyboard");
     let (_, nt) = for_all_objects(ctx, "sweep:30 objects x 124 keys x 512 modifier values x 2 modes", 3, c16_chunk);
+    {
+        let all: Vec<usize> = (0..N_LAYOUTS).collect();
+        let deep = if ctx.thorough() { 2 } else { 1 };
+        decoder_family(ctx, "family:raw keys through EventDecoder after short histories", &all, &|_l| ALL_KEYS.to_vec(), deep, |_l, k, m, _mode, out| {
+            if RAW52.contains(&k) {
+                return if *out != Ok(DecodedKey::RawKey(k)) { Some(("must-be-raw".into(), format!("RawKey({:?})", k))) } else { None };
+            }
+            if let Ok(DecodedKey::RawKey(r)) = out {
+                let alias = NUMPAD_DIGITS.iter().find(|(d, _, _)| *d == k).and_then(|(_, _, a)| *a);
+                if !(*r == k || (alias == Some(*r) && !r_numlock(m))) {
+                    return Some(("masquerades".into(), format!("RawKey({:?}) or a character", k)));
+                }
+            }
+            None
+        });
+    }
     ctx.sample(json!({"key": "F5", "modifiers": "any of 512", "reference": "RawKey(F5) on every layout"}));
     ctx.sample(json!({"key": "Numpad1", "modifiers": "numlock off", "reference": "RawKey(End) is the only raw key other than Numpad1 it may decode to"}));
     (nt, "30 layout objects x 124 keys x all 512 modifier values x both modes; non-trivial = points on the 52 character-less keys plus every point whose output is a raw key".into())
@@ -992,6 +1239,66 @@ pub fn c17(ctx: &mut Ctx) -> (u64, String) {
     }
     ctx.evaluations += n;
     ctx.part("replay:change_layout over all 10x10 ordered pairs, both wrapper forms", json!({"modifier_states_probed": probe_mods.len(), "presses_checked": n}));
+    // histories X, Y, change_layout(to), X: the second X must be decoded by the new variant (a decoder that remembers
+    // earlier look-ups must forget them all when the layout is switched)
+    {
+        let plain: Vec<KeyCode> = ALL_KEYS.iter().copied().filter(|k| !is_modifier_key(*k)).collect();
+        let ys = [KeyCode::A, KeyCode::S, KeyCode::D, KeyCode::F, KeyCode::Key1, KeyCode::Key2, KeyCode::Numpad8, KeyCode::F1];
+        let results = par_chunks(100, |pair| {
+            let from = pair / 10;
+            let to = pair % 10;
+            let mut n = 0u64;
+            let mut bads = vec![];
+            for byref in [false, true] {
+                for x in &plain {
+                    for y in &ys {
+                        macro_rules! body {
+                            ($d:expr, $mk:expr) => {{
+                                let mut d = $d;
+                                let got = guarded(|| {
+                                    let _ = d.process_keyevent(KeyEvent::new(*x, KeyState::Down));
+                                    let _ = d.process_keyevent(KeyEvent::new(*y, KeyState::Down));
+                                    d.change_layout($mk);
+                                    d.process_keyevent(KeyEvent::new(*x, KeyState::Down))
+                                });
+                                let want = guarded(|| Some(map_direct(to, *x, &mods_from_bits(M_INIT), HandleControl::MapLettersToUnicode)));
+                                n += 1;
+                                if got != want && bads.len() < 4 {
+                                    let f = |r: &Result<Option<DecodedKey>, String>| match r {
+                                        Ok(v) => crate::replay::fmt_dk(v),
+                                        Err(p) => p.clone(),
+                                    };
+                                    bads.push((from, to, byref, *x, *y, f(&want), f(&got)));
+                                }
+                            }};
+                        }
+                        if byref {
+                            body!(EventDecoder::new(any_static(from), HandleControl::MapLettersToUnicode), any_static(to));
+                        } else {
+                            body!(EventDecoder::new(any_of(from), HandleControl::MapLettersToUnicode), any_of(to));
+                        }
+                    }
+                }
+            }
+            (n, bads)
+        });
+        let mut n = 0;
+        for (c, bads) in results {
+            n += c;
+            for (from, to, byref, x, y, want, got) in bads {
+                let spec = if byref { "anyref" } else { "any" };
+                let comp = format!("ed:{}-{}:Map", spec, LAYOUT_NAMES[from]);
+                let ops = vec![Op::Key(x, KeyState::Down), Op::Key(y, KeyState::Down), Op::Layout(to as u8), Op::Key(x, KeyState::Down)];
+                ctx.violation(
+                    &format!("{}:switch-after-typing/{}->{}/{}", spec, LAYOUT_NAMES[from], LAYOUT_NAMES[to], key_name(x)),
+                    &format!("EventDecoder<{}>: press {:?}, press {:?}, change_layout from {} to {}, press {:?} again: must give {} (what {} gives) but gives {}", spec, x, y, LAYOUT_NAMES[from], LAYOUT_NAMES[to], x, want, LAYOUT_NAMES[to], got),
+                    Replay::one(&comp, ops, &want, Some(got)),
+                );
+            }
+        }
+        ctx.evaluations += n;
+        ctx.part("replay:X, Y, change_layout, X over all 10x10 pairs, both wrapper forms", json!({"histories_checked": n}));
+    }
     ctx.sample(json!({"wrapper": "&AnyLayout::Azerty", "key": "Q", "modifiers": "numlock", "reference": "what Azerty gives: 'a'"}));
     let _ = (Keyboard::new(ScancodeSet2::new(), Echo(0), HandleControl::Ignore), BTreeSet::<u8>::new());
     (nt, "10 variants x 2 wrapper forms x 124 keys x 512 modifier values x 2 modes, each compared with the wrapped layout called directly; change_layout over all 10 x 10 ordered pairs; every point is a comparison".into())
